@@ -25,3 +25,20 @@ func VerifVerifyAlt(d *PrivateKey, digest []byte, r, s *secp256k1.Scalar) bool {
 func VerifMitigate(rand io.Reader, k *PrivateKey, e *secp256k1.Scalar) (io.Reader, error) {
 	return mitigateDebianAndSony(rand, domainSepECDSA, k, e)
 }
+
+// VerifImage returns the raw memory image of everything reachable from the key objects (for frame checks).
+func (k *PrivateKey) VerifImage() []byte {
+	m := k.scalar.VerifMont()
+	var out []byte
+	for _, l := range m {
+		for i := 0; i < 8; i++ {
+			out = append(out, byte(l>>(8*i)))
+		}
+	}
+	return append(out, k.publicKey.VerifImage()...)
+}
+
+func (k *PublicKey) VerifImage() []byte {
+	out := append([]byte{}, secp256k1.VerifPointImage(k.point)...)
+	return append(out, k.pointBytes...)
+}
